@@ -257,6 +257,28 @@ func onEvent(e *events.Event) {
 	}
 }
 
+// Reopen closes the node and starts a new one on the same data directory (a node restart: chain.Init
+// reloads the block index and the indexers catch up from the stored chain). The harness-side registry of
+// built blocks is carried over; the node itself forgets its side-chain block cache, orphans and pool.
+func (n *Node) Reopen(opts ...Options) (*Node, error) {
+	n.Close()
+	m, err := NewNode(n.Dir, opts...)
+	if err != nil {
+		return nil, err
+	}
+	for k, v := range n.blocks {
+		m.blocks[k] = v
+	}
+	for k, v := range n.byID {
+		m.byID[k] = v
+	}
+	for k, v := range n.txs {
+		m.txs[k] = v
+	}
+	m.nonce = n.nonce
+	return m, nil
+}
+
 // Close releases the databases. The directory is left to the caller.
 func (n *Node) Close() {
 	if n.closed {
